@@ -119,12 +119,33 @@ def job(args):
                 return res
         # out-of-range coordinates must be rejected
         if order > 0:
-            for d in range(order):
+            for d, badv in [(d, b) for d in range(order) for b in ("past", "negative")]:
                 c = [0 if x > 0 else 0 for x in dims]
-                c[d] = dims[d]  # first index past the end
+                c[d] = dims[d] if badv == "past" else -1  # first index past the end / a negative index
                 oor_levels = [fmt.ordering.index(k) for k in range(order) if not 0 <= c[k] < dims[k]]
                 level = min(oor_levels)  # the outermost level that sees an out-of-range component
                 res["evals"] += 1
+                # the offending coordinate alone, and between/after valid ones (so that it lands in the middle of a crd array)
+                companions = [[]]
+                if space:
+                    lo, hi = space[0], space[-1]
+                    companions += [[lo, hi], [hi, lo], [lo], [hi]]
+                for comp in companions[1:]:
+                    for pos in range(len(comp) + 1):
+                        cl = [tuple(x) for x in comp[:pos]] + [tuple(c)] + [tuple(x) for x in comp[pos:]]
+                        res["evals"] += 1
+                        try:
+                            t = Tensor.from_aos(cl, [1.0] * len(cl), dimensions=dims, format=fmt)
+                            entry = dict(what=f"coordinate {tuple(c)} outside dimensions {dims} accepted among valid ones (stored content {t.to_dok()})", format=fmt_text,
+                                         dims=dims, coords=cl, values=[1.0] * len(cl), level_mode=fmt.modes[level].character)
+                            if fmt.modes[level].character == "d":
+                                res["known"].append(("F5", entry))
+                            else:
+                                res["failures"].append(entry)
+                        except (ValueError, OverflowError):
+                            pass
+                        except Exception as e:
+                            res["failures"].append(dict(what=f"out-of-range coordinate raised {type(e).__name__} instead of ValueError", format=fmt_text, dims=dims, coords=cl, values=[1.0] * len(cl)))
                 try:
                     t = Tensor.from_aos([tuple(c)], [1.0], dimensions=dims, format=fmt)
                     entry = dict(what=f"coordinate {tuple(c)} outside dimensions {dims} accepted (stored content {t.to_dok()})", format=fmt_text, dims=dims,
